@@ -50,7 +50,103 @@ fn ocf_rt(name: &str, schema: Arc<Schema>, batch: RecordBatch) {
     }
 }
 
+fn json_probe() {
+    use arrow_schema::TimeUnit;
+    for tz in ["UTC", "+01:00"] {
+        let schema = Arc::new(Schema::new(vec![Field::new("t", DataType::Timestamp(TimeUnit::Nanosecond, Some(tz.into())), true)]));
+        match arrow_json::ReaderBuilder::new(schema.clone()).build(Cursor::new(b"{\"t\":\"2020-01-01T00:00:00Z\"}\n".to_vec())) {
+            Err(e) => println!("json tz {tz}: open failed: {e}"),
+            Ok(rd) => {
+                for b in rd {
+                    match b {
+                        Ok(b) => println!("json tz {tz}: read {:?}", vcore::tok::batch_rows(&b)),
+                        Err(e) => {
+                            println!("json tz {tz}: read failed: {e}");
+                            break;
+                        }
+                    }
+                }
+            }
+        }
+    }
+}
+
+fn findings_probe() {
+    use arrow_schema::TimeUnit;
+    // C17-csv-escape-char-not-escaped
+    let schema = Arc::new(Schema::new(vec![Field::new("s", DataType::Utf8, false)]));
+    let batch = RecordBatch::try_new(schema.clone(), vec![Arc::new(StringArray::from(vec!["a\\b", "x\\\"y"]))]).unwrap();
+    let mut w = arrow_csv::WriterBuilder::new().with_header(false).with_double_quote(false).with_escape(b'\\').build(Vec::new());
+    w.write(&batch).unwrap();
+    let text = w.into_inner();
+    println!("csv escape: in {:?} text {:?}", vcore::tok::batch_rows(&batch), String::from_utf8_lossy(&text));
+    let rd = arrow_csv::ReaderBuilder::new(schema.clone()).with_escape(b'\\').build(Cursor::new(text)).unwrap();
+    for b in rd {
+        match b {
+            Ok(b) => println!("csv escape: read {:?} = {:?}", vcore::tok::batch_rows(&b), b.column(0)),
+            Err(e) => println!("csv escape: read failed: {e}"),
+        }
+    }
+    // C17-json-number-at-eof, C17-json-surrogate-pair-or
+    for (text, dt) in [("1", DataType::Int64), ("1\n", DataType::Int64), ("2.5", DataType::Float64), ("\"\\ud840\\udc00\"", DataType::Utf8), ("\"\\ud83d\\ude00\"", DataType::Utf8), ("\"\\udbff\\udfff\"", DataType::Utf8)] {
+        match arrow_json::ReaderBuilder::new_with_field(Field::new("v", dt, true)).build(Cursor::new(text.as_bytes().to_vec())) {
+            Err(e) => println!("json {text:?}: open failed: {e}"),
+            Ok(rd) => {
+                for b in rd {
+                    match b {
+                        Ok(b) => println!("json {text:?}: read {:?}", b.column(0)),
+                        Err(e) => {
+                            println!("json {text:?}: read failed: {e}");
+                            break; // the iterator keeps returning the error
+                        }
+                    }
+                }
+            }
+        }
+    }
+    // C17-json-duration-iso-not-readable
+    let schema = Arc::new(Schema::new(vec![Field::new("d", DataType::Duration(TimeUnit::Millisecond), true)]));
+    let batch = RecordBatch::try_new(schema.clone(), vec![Arc::new(DurationMillisecondArray::from(vec![4i64]))]).unwrap();
+    let mut out = Vec::new();
+    {
+        let mut w = arrow_json::LineDelimitedWriter::new(&mut out);
+        w.write(&batch).unwrap();
+        w.finish().unwrap();
+    }
+    println!("json duration: text {:?}", String::from_utf8_lossy(&out));
+    for b in arrow_json::ReaderBuilder::new(schema).build(Cursor::new(out)).unwrap() {
+        match b {
+            Ok(b) => println!("json duration: read {:?}", vcore::tok::batch_rows(&b)),
+            Err(e) => {
+                println!("json duration: read failed: {e}");
+                break;
+            }
+        }
+    }
+}
+
+fn dict_probe() {
+    use arrow_array::types::Int32Type;
+    use arrow_avro::writer::format::AvroSoeFormat;
+    for (name, arr) in [
+        ("dict-empty", DictionaryArray::<Int32Type>::from_iter(Vec::<Option<&str>>::new())),
+        ("dict-2", DictionaryArray::<Int32Type>::from_iter(vec![Some("a"), None])),
+    ] {
+        let schema = Arc::new(Schema::new(vec![Field::new("c0", arr.data_type().clone(), true)]));
+        let batch = RecordBatch::try_new(schema.clone(), vec![Arc::new(arr)]).unwrap();
+        let enc = WriterBuilder::new(schema.as_ref().clone()).build_encoder::<AvroSoeFormat>().and_then(|mut e| e.encode(&batch).map(|_| e.flush().len()));
+        println!("{name}: encoder {:?}", enc.map_err(|e| e.to_string()));
+        let wr = WriterBuilder::new(schema.as_ref().clone()).build::<_, AvroSoeFormat>(Vec::new()).and_then(|mut w| w.write(&batch).and_then(|_| w.finish()).map(|_| w.into_inner().len()));
+        println!("{name}: stream writer {:?}", wr.map_err(|e| e.to_string()));
+        let wr = WriterBuilder::new(schema.as_ref().clone()).build::<_, AvroOcfFormat>(Vec::new()).and_then(|mut w| w.write(&batch).and_then(|_| w.finish()).map(|_| w.into_inner().len()));
+        println!("{name}: ocf writer {:?}", wr.map_err(|e| e.to_string()));
+    }
+}
+
 pub fn run() {
+    dict_probe();
+    findings_probe();
+    json_probe();
     let uf = UnionFields::try_new(vec![0, 1], vec![Field::new("long", DataType::Int64, false), Field::new("string", DataType::Utf8, false)]).unwrap();
     // dense union, rows: long 5, string "ab", long 7
     let u = UnionArray::try_new(
